@@ -208,7 +208,9 @@ async fn run(
         .inspect(|_| info!("corrosion agent sync loop is done")),
     );
 
-    spawn_counted(
+    // waited for at shutdown: what this loop applies has to reach the subscriptions before
+    // they are wound down
+    handles.push(spawn_counted(
         util::apply_fully_buffered_changes_loop(
             agent.clone(),
             bookie.clone(),
@@ -216,7 +218,7 @@ async fn run(
             tripwire.clone(),
         )
         .inspect(|_| info!("corrosion buffered changes loop is done")),
-    );
+    ));
 
     info!("Starting peer API on udp/{gossip_addr} (QUIC)");
 
